@@ -44,7 +44,6 @@ def total_energy(pop, reaction, buffer):
 def evaluate(F, fn, me, pop, ke, reactants, products, buffer, fields_mol, best_delta=0.0, stale=None):
     sf = F.field_index(POP, "stack")
     popsym = Sym("populations", {sf: Sym("stack")})
-    home_buf = 10001
     mols = []
     for i, (x, k) in enumerate(zip(pop, ke)):
         vals = [None] * 4
@@ -56,40 +55,60 @@ def evaluate(F, fn, me, pop, ke, reactants, products, buffer, fields_mol, best_d
         vals[fields_mol["best"]] = x if not best_delta else indiv("b%d" % i, obj(x) - best_delta)
         mols.append(Agg("adt", MOL, "Molecule", vals))
 
-    def bm(interp, env, f, args):
-        g = (f.get("gargs") or [""])[0]
-        if g.startswith(CRO + "ChemicalReaction<"):
-            return Vec("reaction", borrowed=True)
-        return TOP
-
-    def bvm(interp, env, f, args):
-        g = (f.get("gargs") or [""])[0]
-        if g == CRO + "EnergyBuffer":
-            return Ref(home_buf, [], frame="root")
-        if g.startswith(CRO + "ChemicalReaction<"):
-            return Vec("reaction", borrowed=True)
-        return TOP
-
     def gen_range(interp, env, f, args):
         r = load(interp, env, args[1])
         if isinstance(r, Agg) and len(r.fields) >= 2 and all(isinstance(z, float) for z in r.fields[:2]):
             lo, hi = r.fields[0], r.fields[1]
             return lo + 0.25 * (hi - lo) if r.name.endswith("Inclusive") else lo + 0.5 * (hi - lo)
         return TOP
+    # the molecule records and the energy buffer are cells of the typed store (statemodel): whichever accessors the update
+    # uses, the verdict is read off what the state holds afterwards
+    import statemodel
+
+    def auto(ty):
+        if ty.startswith(CRO + "ChemicalReaction<"):
+            return {0: Agg("adt", CRO + "ChemicalReaction", "ChemicalReaction", [Vec("reaction")])}
+        if ty == CRO + "EnergyBuffer":
+            return {0: Agg("adt", CRO + "EnergyBuffer", "EnergyBuffer", [float(buffer)])}
+        return None
+    store = statemodel.Store(F, levels=1, auto=auto)
+
+    def regs(interp, env, f, args, t, bb, path):
+        k_ = f.get("key") or ""
+        g_ = ((f.get("cgargs") or f.get("gargs") or [""])[0] or "")
+        if k_.startswith("mahf::state::registry::StateRegistry::") and f.get("name") in ("borrow", "borrow_mut"):
+            if g_.startswith(POP + "<"):
+                return popsym
+            if g_ == "mahf::state::random::Random":
+                return Sym("rng")
+        return TOP
     table = {"mahf::state::State::populations_mut": popsym, "mahf::state::State::populations": popsym, "mahf::state::State::random_mut": Sym("rng"),
-             "mahf::state::registry::StateRegistry::borrow_mut": bm, "mahf::state::registry::StateRegistry::borrow_value_mut": bvm,
              "rand::rng::Rng::gen_range": gen_range, "rand::distributions::uniform::Uniform::new": Sym("uniform"),
              "rand::distributions::distribution::Distribution::sample": 0.5, "rand::rng::Rng::sample": 0.5, "rand::rng::Rng::gen": 0.5,
              "rand::distributions::distribution::Distribution::sample_iter": Agg("repeat", None, None, [0.5]), "rand::rng::Rng::sample_iter": Agg("repeat", None, None, [0.5])}
-    it = install(Interp(fn.body, chain(mk_oracle(table), StackModel(sf), coll_oracle, std_oracle), [me, Sym("problem"), Sym("state")], facts=F,
-                        inline=lambda k: k.startswith(POP + "::") or k.startswith(CRO) or c07.INLINE(k), max_visits=12, max_paths=200))
-    it.extra_env = {home_buf: float(buffer)}
+    it = install(Interp(fn.body, chain(mk_oracle(table), regs, store, StackModel(sf), coll_oracle, std_oracle), [me, Sym("problem"), Sym("state")], facts=F,
+                        inline=lambda k: k.startswith(POP + "::") or k.startswith(CRO) or c07.INLINE(k) or statemodel.inline(k), max_visits=12, max_paths=200))
     it.init_state = {"stack": (Vec("pop"), Vec("reactants"), Vec("products")), "next_vec": 0,
                      "heap": {"pop": tuple(pop), "reactants": tuple(reactants), "products": tuple(products), "reaction": tuple(mols)}}
     if stale is not None:       # the initialisation scenario: only the population on the stack, `stale` records left by an earlier run
         it.init_state["stack"] = (Vec("pop"),)
         it.init_state["heap"]["reaction"] = tuple(stale)
-    return it.run(), home_buf, mols
+    store.install(it)
+    return it.run(), store, mols
+
+
+def records_of(p, store):
+    """the molecule records / the buffer the state holds at the end of a path (None: the state does not hold them any more)"""
+    rt = [ty for ty in store.types() if ty.startswith(CRO + "ChemicalReaction<")]
+    v = store.value(p, rt[0], 0) if rt else Agg("adt", CRO + "ChemicalReaction", "ChemicalReaction", [Vec("reaction")])
+    inner = v.fields[0] if isinstance(v, Agg) and v.fields else None
+    recs = p.mstate["heap"].get(getattr(inner, "vid", None)) if inner is not None else None
+    return recs
+
+
+def buffer_of(p, store, buffer):
+    b = store.value(p, CRO + "EnergyBuffer", 0) if CRO + "EnergyBuffer" in store.types() else Agg("adt", CRO + "EnergyBuffer", "EnergyBuffer", [float(buffer)])
+    return b.fields[0] if isinstance(b, Agg) and b.fields else None
 
 
 def check_paths(paths, home_buf, pop, mols, buffer, label, fields_mol, bad, reactant_idx):
@@ -103,8 +122,11 @@ def check_paths(paths, home_buf, pop, mols, buffer, label, fields_mol, bad, reac
             bad.append((label, "leaves the stack as %s; exactly the reactant and product populations must be consumed" % st))
             continue
         npop = p.mstate["heap"]["pop"]
-        nre = p.mstate["heap"]["reaction"]
-        nbuf = p.env.get(home_buf)
+        nre = records_of(p, home_buf)
+        nbuf = buffer_of(p, home_buf, buffer)
+        if nre is None:
+            bad.append((label, "leaves no molecule records in the state"))
+            continue
         if len(npop) != len(nre):
             bad.append((label, "leaves %d individuals but %d molecule records" % (len(npop), len(nre))))
             continue
@@ -137,8 +159,11 @@ def r2_stack_effect(ctx):
     for comp in ("OnWallIneffectiveCollisionUpdate", "DecompositionUpdate", "IntermolecularIneffectiveCollisionUpdate", "SynthesisUpdate"):
         fn = F.method(CRO + comp, "execute", COMP)
         paths = compsum.path_effects(F, fn, CRO + comp)
-        ctx.check(paths == {(-2, -2)}, "C20.R2", fn.key, "consumes-exactly-two-populations-on-every-path",
-                  "the (net effect, deepest consumption) over the Ok paths of %s is %s; every path must consume exactly the reactant and product populations (-2, -2)" % (comp, sorted(paths) if paths else paths),
+        # net effect -2 on every Ok path; the population underneath may be taken off and put back (deepest reach -3), nothing
+        # deeper is touched - WHAT is left on the stack is decided by C20.R1
+        good = bool(paths) and all(net == -2 and -3 <= low <= -2 for (net, low) in paths)
+        ctx.check(good, "C20.R2", fn.key, "consumes-exactly-two-populations-on-every-path",
+                  "the (net effect, deepest reach) over the Ok paths of %s is %s; every path must shorten the stack by exactly the reactant and product populations (net -2) and reach no deeper than the population underneath (-3)" % (comp, sorted(paths) if paths else paths),
                   detail=str(sorted(paths) if paths else paths), loc=fn.loc())
 
 
@@ -264,7 +289,7 @@ def r5_init(ctx):
                 if st != ["pop"] or [getattr(x.fields[0], "tag", "?") for x in p.mstate["heap"]["pop"]] != ["s:i%d" % i for i in range(size)]:
                     bad.append((label, "changes the population stack (%s)" % st))
                     continue
-                recs = p.mstate["heap"].get("reaction", ())
+                recs = records_of(p, home_buf) or ()
                 got = []
                 for m in recs:
                     if not (isinstance(m, Agg) and m.name == MOL):
